@@ -883,3 +883,37 @@ SUBCHECKS = [
     SubCheck('remove_defs', lambda: PROG, run_remove_defs, quick=4000, thorough=120000),
     SubCheck('remove_unused', lambda: PROG, run_remove_unused, quick=600, thorough=15000),
 ]
+
+
+def _pred_folding_piecewise(spec):
+    """True when some expression of the program mentions a symbol its value cannot depend on (a Piecewise with
+    equal branches, a comparison of an expression with itself ...): pharmpy's symengine layer keeps such symbols
+    in free_symbols although its sympy layer (and the printed model) folds them away. Decided numerically: the
+    value is the same on a grid of values of that symbol, for several settings of the other symbols."""
+    grid = [-3.7, -1.1, 0.3, 0.9, 1.2, 1.7, 2.6, 4.1]
+    try:
+        for variant in (False, True):
+            p = Prog(spec, leaf_assign=variant)
+            for it in p.items:
+                exprs = [it[2]] if it[0] == 'asg' else list(it[2])
+                for e in exprs:
+                    syn = sorted(ast_reads(e))
+                    for sname in syn:
+                        irrelevant = True
+                        for k in range(4):
+                            env = {n: grid[(3 * j + 5 * k) % len(grid)] for j, n in enumerate(syn)}
+                            vals = set()
+                            for g in grid:
+                                env[sname] = g
+                                vals.add(round(ast_eval(e, env), 12))
+                            if len(vals) > 1:
+                                irrelevant = False
+                                break
+                        if irrelevant:
+                            return True
+    except Exception:
+        return False
+    return False
+
+
+KNOWN_PREDICATES = {'folding_piecewise': _pred_folding_piecewise}
